@@ -11,6 +11,8 @@ SPICE = [
     "  leading spaces", "line one\n second line starts with a space", "para one\n\npara two\n\n.third paragraph", "'quoted' \"double\"",
     "日本語 テキスト", "tab\there", "a\n'b", "-", ".", "'", "\\", "\\&", "C:\\temp\\new", "ends with newline\n", "a\n.b\n'c\n\\d",
     "mixed <tt> and \\fI and .PP", "..", "''", ".\\\" comment", "\n.leading newline", "a--b -- c",
+    # preformatted chunks: 4-space indented lines and fenced blocks
+    "usage:\n    --filter <field>=<value>", "example\n\n    convert </dl></div><i> & .so x\n    'second", "text\n\n```\n<script>x</script>\n.de Q\n```\n\nafter",
 ]
 TITLES = ["options group", ".SH injected", "'title", "title\\fB", "C:\\dir", "<h1>title</h1>", "two\nlines", "two\nlines\nthree\n", "日本語"]
 METAVARS = ["FILE", "<x>", "a.b", "'Q", ".M", "A B", "x\\y", "N", "KEY=VAL", "<>"]
